@@ -112,13 +112,24 @@ def run_case(case: Dict[str, Any], ctx) -> None:
         return
     ctx.count("fit:forward", 2)
     ctx.nontrivial(sig_of(case))
-    for fr, tag in ((A, "A"), (B, "B")):
-        if fr.res_out > tol and dtype in (torch.bfloat16, torch.float16):
+    lowp = dtype in (torch.bfloat16, torch.float16)
+    _noise: Dict[str, float] = {}
+
+    def noise_of(tag: str) -> float:
+        """relative error PyTorch's own low-precision op makes on this very draw (0 for float32 / float64)"""
+        if not lowp:
+            return 0.0
+        if tag not in _noise:
             from ..optable import reference_noise
             try:
-                noise = reference_noise(op, cfg, dtype, sA if tag == "A" else sB, uA).get("__out__", 0.0)
+                _noise[tag] = reference_noise(op, cfg, dtype, sA if tag == "A" else sB, uA).get("__out__", 0.0)
             except Exception:
-                noise = 0.0
+                _noise[tag] = 0.0
+        return _noise[tag]
+
+    for fr, tag in ((A, "A"), (B, "B")):
+        if fr.res_out > tol and lowp:
+            noise = noise_of(tag)
             if fr.res_out <= 8 * noise + tol:
                 ctx.count("lowp:within-noise-of-the-reference-op")
                 continue
@@ -131,14 +142,16 @@ def run_case(case: Dict[str, Any], ctx) -> None:
             ctx.violation(key("scalar-not-positive"), f"s={fr.s_out!r}", cfg=cfg, constraint=constraint)
             return
     stol = 1e-11 if dtype == torch.float64 else 2 * tol  # fitted scalars of tiny low-precision tensors are noisy
-    if not rel_close(A.s_out, B.s_out, stol):
+    if lowp and not rel_close(A.s_out, B.s_out, stol) and rel_close(A.s_out, B.s_out, stol + 8 * (noise_of("A") + noise_of("B"))):
+        ctx.count("lowp:scalar-within-noise-of-the-reference-op")
+    elif not rel_close(A.s_out, B.s_out, stol):
         ctx.violation(key("scalar-depends-on-data"), f"s_A={A.s_out!r} s_B={B.s_out!r}", cfg=cfg, constraint=constraint,
                       dtype=case["dtype"])
-    if op.exact_one and not rel_close(A.s_out, 1.0, stol):
+    if op.exact_one and not rel_close(A.s_out, 1.0, stol + 8 * noise_of("A")):
         ctx.violation(key("scalar-not-one"), f"s={A.s_out!r} for a loss / norm / embedding", cfg=cfg, dtype=case["dtype"])
     if dtype != torch.float64:
         R = run_fit(op, U, cfg, constraint, torch.float64, sA, uA, want_grads=False)
-        if R.u_exc is None and R.ref_exc is None and R.s_out is not None and not rel_close(A.s_out, R.s_out, tol):
+        if R.u_exc is None and R.ref_exc is None and R.s_out is not None and not rel_close(A.s_out, R.s_out, tol + 8 * noise_of("A")):
             ctx.violation(key("scalar-differs-from-float64"), f"{case['dtype']}: s={A.s_out!r}, float64: s={R.s_out!r}", cfg=cfg)
     # repeated call is bit-identical (RNG re-seeded identically for the random ops)
     A2 = run_fit(op, U, cfg, constraint, dtype, sA, uA, want_grads=False)
